@@ -24,9 +24,10 @@ def t_walk(chk, ix):
     rules_summary.check_reporter_walk(chk, ix)
     rules_summary.check_collector_walk(chk, ix)
     rules_summary.check_tables_and_formats(chk, ix)
+    rules_summary.check_formats_concrete(chk, ix)
 
 
 def run(chk, ix, tier):
     run_parallel(chk, [(t_walk, ()), (T.t_run_model, (("Y4",),))])
-    for r, n in (("Y1", 6), ("Y2", 20), ("Y4", 1), ("Y5", 2), ("Y6", 4)):
+    for r, n in (("Y1", 6), ("Y2", 20), ("Y4", 1), ("Y5", 2), ("Y6", 4), ("Y7", 20)):
         chk.require_instances(r, n)
